@@ -191,7 +191,7 @@ def apply_closure(ctx, F, cl, args):
 MUTATORS = ('::truncate', '::push', '::pop', '::remove', '::swap_remove', '::insert', '::retain', '::clear', '::extend', '::append', '::drain', '::dedup', '::resize', '::split_off')
 
 
-def r2(ctx, F, sfx):
+def r2(ctx, F, sfx, rule='C16.R2'):
     ub = update_fn(F)
     n = 0
     for b in F.bodies:
@@ -227,8 +227,8 @@ def r2(ctx, F, sfx):
             # a mutation placed after the update in the same path is caught because the update must come after: check update not dominating only
             if ok:
                 ok = not any(u == bid for u in upd_blocks) and all(cfg.must_pass_through(bid, ex, [u for u in upd_blocks if u != bid]) for ex in cfg.exits())
-            ctx.check('C16.R2', inst, ok, 'vertex-multiset change (%s) %s the radius update on every path to return' % (what, 'reaches' if ok else 'can bypass'), 'update on every path', where(b, t['line']), key_extra='bypass')
-    ctx.floor('C16.R2', 'vertex-multiset mutations' + sfx, n, 3)
+            ctx.check(rule, inst, ok, 'vertex-multiset change (%s) %s the radius update on every path to return' % (what, 'reaches' if ok else 'can bypass'), 'update on every path', where(b, t['line']), key_extra='bypass')
+    ctx.floor(rule, 'vertex-multiset mutations' + sfx, n, 3)
 
 
 def receiver_is_field(b, bl, t, field):
